@@ -137,7 +137,11 @@ def run_job(job):
         rc, out_i, _ = sh(cmd_i, 300)
     if rc != 0:
         return {'status': 'undecided', 'reason': 'goto-instrument failed', 'log': out_i, 'results': [], 'wall': time.time() - t0, 'cmd': ' '.join(cmd_i)}
-    cmd_c = ['cbmc'] + CBMC_CHECKS + job.cbmc_flags + [base + '.b.gb']
+    checks = list(CBMC_CHECKS)
+    ob = (getattr(job, 'spec', None) or {}).get('object_bits')
+    if ob:
+        checks[checks.index('--object-bits') + 1] = str(ob)
+    cmd_c = ['cbmc'] + checks + job.cbmc_flags + [base + '.b.gb']
     if getattr(job, 'spec', None) and job.spec.get('split'):
         rc, out, wall = run_split(job, cmd_c)
     else:
